@@ -68,6 +68,15 @@ Proof.
   - apply H.
 Qed.
 
+Lemma replay_suffix_pointwise : forall B P n k,
+  live_lookup B k = live_lookup P k -> live_lookup (B ++ skipn n P) k = live_lookup P k.
+Proof.
+  intros B P n k H. rewrite live_lookup_app.
+  destruct (latest (skipn n P) k) as [r|] eqn:E.
+  - unfold live_lookup. rewrite (latest_skipn _ _ _ _ E). reflexivity.
+  - exact H.
+Qed.
+
 Lemma read_of_lookup : forall v w,
   (forall k, live_lookup (recs v) k = live_lookup (recs w) k) -> forall k, read v k = read w k.
 Proof. intros v w H k. unfold read. rewrite H. reflexivity. Qed.
@@ -258,10 +267,10 @@ Proof.
 Qed.
 
 Lemma nth_map_ts : forall l i, (i < length l)%nat ->
-  nth i (map r_ts l) 0 = r_ts (nth i l {| r_key := 0; r_ts := 0; r_live := false; r_val := 0; r_len := 0 |}).
+  nth i (map r_ts l) 0 = r_ts (nth i l {| r_key := 0; r_ts := 0; r_live := false; r_val := 0; r_len := 0; r_meta := 0 |}).
 Proof.
   intros l i H.
-  change 0 with (r_ts {| r_key := 0; r_ts := 0; r_live := false; r_val := 0; r_len := 0 |}) at 1.
+  change 0 with (r_ts {| r_key := 0; r_ts := 0; r_live := false; r_val := 0; r_len := 0; r_meta := 0 |}) at 1.
   apply map_nth.
 Qed.
 
@@ -305,6 +314,91 @@ Proof.
   - apply Nat.eqb_neq in E. split; [lia|]. split; [destruct H2 as [H2|H2]; [lia | exact H2] | exact H3].
 Qed.
 
+(* the loop's answer does not depend on the fuel once it exceeds h - l: the None/Some
+   split of [binary_search_by_append_ns] is never an artefact of fuel exhaustion *)
+Lemma bsearch_fuel_irrelevant : forall f1 f2 ts since l h,
+  (h - l < f1)%nat -> (h - l < f2)%nat ->
+  bsearch_loop f1 ts since l h = bsearch_loop f2 ts since l h.
+Proof.
+  induction f1 as [|f1 IH]; intros f2 ts since l h H1 H2; [lia|].
+  destruct f2 as [|f2]; [lia|]. cbn [bsearch_loop].
+  destruct (l <? h)%nat eqn:Elh; [|reflexivity]. apply Nat.ltb_lt in Elh.
+  assert (Hm : (l <= (l + h) / 2 < h)%nat) by lia.
+  destruct (nth ((l + h) / 2) ts 0 <=? since); apply IH; lia.
+Qed.
+
+Theorem search_fuel_irrelevant : forall (l : list rec) since extra,
+  let ts := map r_ts l in
+  bsearch_loop (S (length ts) + extra) ts since 0 (length ts) = bsearch_loop (S (length ts)) ts since 0 (length ts).
+Proof. intros l since extra ts. apply bsearch_fuel_irrelevant; lia. Qed.
+
+(* ---------- maxts, split_newer, reflects ---------- *)
+
+Lemma in_maxts : forall l r, In r l -> r_ts r <= maxts l.
+Proof.
+  induction l as [|x l IH]; intros r H; [destruct H|]. cbn [maxts fold_right]. fold (maxts l).
+  destruct H as [H|H]; [subst x; lia | specialize (IH r H); lia].
+Qed.
+
+Lemma maxts_le : forall l c, (forall r, In r l -> r_ts r <= c) -> maxts l <= c.
+Proof.
+  induction l as [|x l IH]; intros c H; [cbn; lia|]. cbn [maxts fold_right]. fold (maxts l).
+  assert (H1 : r_ts x <= c) by (apply H; left; reflexivity).
+  assert (H2 : maxts l <= c) by (apply IH; intros r Hr; apply H; right; exact Hr). lia.
+Qed.
+
+Lemma split_newer_spec : forall M l P A,
+  split_newer M l = (P, A) -> l = P ++ A /\ (forall r, In r A -> M < r_ts r).
+Proof.
+  intros M. induction l as [|x l IH]; intros P A H; cbn [split_newer] in H.
+  - inversion H; subst. split; [reflexivity | intros r []].
+  - destruct (split_newer M l) as [P0 A0] eqn:E. destruct (IH P0 A0 eq_refl) as [Hl HA].
+    destruct P0 as [|y P0].
+    + destruct (M <? r_ts x) eqn:Ex; inversion H; subst; cbn [app] in *.
+      * split; [reflexivity|]. apply N.ltb_lt in Ex. intros r [Hr|Hr]; [subst r; exact Ex | apply HA; exact Hr].
+      * split; [reflexivity | exact HA].
+    + inversion H; subst. split; [reflexivity | exact HA].
+Qed.
+
+Lemma rec_eqb_eq : forall a b, rec_eqb a b = true -> a = b.
+Proof.
+  intros [k1 t1 l1 v1 n1 m1] [k2 t2 l2 v2 n2 m2]. unfold rec_eqb. cbn [r_key r_ts r_live r_val r_len r_meta].
+  intros H. repeat (apply andb_true_iff in H; destruct H as [H ?]).
+  apply N.eqb_eq in H. repeat match goal with X : (_ =? _) = true |- _ => apply N.eqb_eq in X end.
+  match goal with X : Bool.eqb _ _ = true |- _ => apply eqb_prop in X end. subst. reflexivity.
+Qed.
+
+Lemma orec_eqb_eq : forall a b, orec_eqb a b = true -> a = b.
+Proof.
+  intros [a|] [b|] H; cbn in H; try discriminate; [|reflexivity]. f_equal. apply rec_eqb_eq. exact H.
+Qed.
+
+Lemma latest_notin : forall l k, ~ In k (map r_key l) -> latest l k = None.
+Proof.
+  intros l k H. destruct (latest l k) as [r|] eqn:E; [|reflexivity].
+  destruct (latest_some _ _ _ E) as [Hk Hin]. exfalso. apply H. rewrite <- Hk. apply in_map. exact Hin.
+Qed.
+
+Lemma live_lookup_notin : forall l k, ~ In k (map r_key l) -> live_lookup l k = None.
+Proof. intros l k H. unfold live_lookup. rewrite (latest_notin _ _ H). reflexivity. Qed.
+
+(* what [reflects st = true] means *)
+Theorem reflects_sound : forall st, reflects st = true ->
+  exists P A, recs (src st) = P ++ A /\
+    (forall r, In r A -> maxts (recs (bk st)) < r_ts r) /\
+    (forall k, latest A k = None -> live_lookup (recs (bk st)) k = live_lookup P k).
+Proof.
+  intros st H. unfold reflects in H.
+  destruct (split_newer (maxts (recs (bk st))) (recs (src st))) as [P A] eqn:E.
+  destruct (split_newer_spec _ _ _ _ E) as [Hl HA]. exists P, A. split; [exact Hl|]. split; [exact HA|].
+  intros k Hk. rewrite forallb_forall in H.
+  destruct (in_dec N.eq_dec k (map r_key (recs (src st)) ++ map r_key (recs (bk st)))) as [Hin|Hnin].
+  - specialize (H k Hin). rewrite Hk in H. apply orec_eqb_eq. exact H.
+  - rewrite !live_lookup_notin; [reflexivity | |].
+    + intros Hc. apply Hnin. apply in_or_app. left. rewrite Hl, map_app. apply in_or_app. left. exact Hc.
+    + intros Hc. apply Hnin. apply in_or_app. right. exact Hc.
+Qed.
+
 (* ---------- one backup run ---------- *)
 
 Lemma last_map_bound : forall (l : list rec) c,
@@ -318,14 +412,14 @@ Proof.
   apply in_map_iff in Hin. destruct Hin as [r [Hr Hin]]. rewrite <- Hr. apply H. exact Hin.
 Qed.
 
+(* S = P ++ A, every record of A newer than everything the backup holds, and the backup
+   agrees with P on every key that A does not touch: one incremental copy converges *)
 Lemma incremental_converges : forall S B P A c,
   recs S = P ++ A ->
   (forall r, In r A -> c < r_ts r) ->
   (forall r, In r (recs B) -> r_ts r <= c) ->
-  (forall k, live_lookup (recs B) k = live_lookup P k) ->
-  let B' := incremental_backup S B in
-  (forall k, live_lookup (recs B') k = live_lookup (recs S) k) /\
-  (forall r, In r (recs B') -> In r (recs B) \/ In r (recs S)).
+  (forall k, latest A k = None -> live_lookup (recs B) k = live_lookup P k) ->
+  forall k, live_lookup (recs (incremental_backup S B)) k = live_lookup (recs S) k.
 Proof.
   intros S B P A c HS HA HB Hll. unfold incremental_backup.
   pose proof (last_map_bound _ _ HB) as Hsince.
@@ -335,17 +429,35 @@ Proof.
   specialize (Hs (fun r Hr => N.le_lt_trans _ _ _ Hsince (HA r Hr))).
   rewrite <- HS in Hs.
   destruct (binary_search_by_append_ns (recs S) (find_last_append_ns (recs B))) as [p|].
-  - destruct Hs as [Hp _]. cbn [recs]. split.
-    + intros k. rewrite HS, skipn_app. replace (p - length P)%nat with 0%nat by lia. cbn [skipn].
-      rewrite app_assoc.
-      rewrite (live_lookup_app_cong (recs B ++ skipn p P) P A (replay_suffix_idempotent _ _ p Hll)).
-      reflexivity.
-    + intros r Hr. apply in_app_or in Hr. destruct Hr as [Hr|Hr]; [left; exact Hr|].
-      right. rewrite <- (firstn_skipn p (recs S)). apply in_or_app. right. exact Hr.
+  - destruct Hs as [Hp _]. cbn [recs].
+    intros k. rewrite HS, skipn_app. replace (p - length P)%nat with 0%nat by lia. cbn [skipn].
+    rewrite app_assoc, (live_lookup_app (recs B ++ skipn p P) A), (live_lookup_app P A).
+    destruct (latest A k) eqn:EA; [reflexivity|].
+    apply replay_suffix_pointwise. apply Hll. exact EA.
   - assert (HA0 : A = []) by (destruct A; [reflexivity | cbn [length] in Hs; lia]).
-    subst A. rewrite app_nil_r in HS. split.
-    + intros k. rewrite HS. apply Hll.
-    + intros r Hr. left. exact Hr.
+    subst A. rewrite app_nil_r in HS. intros k. rewrite HS. apply Hll. reflexivity.
+Qed.
+
+Lemma incremental_subset : forall S B r,
+  In r (recs (incremental_backup S B)) -> In r (recs B) \/ In r (recs S).
+Proof.
+  intros S B r. unfold incremental_backup.
+  destruct (binary_search_by_append_ns (recs S) (find_last_append_ns (recs B))) as [p|]; [|auto].
+  cbn [recs]. intros Hr. apply in_app_or in Hr. destruct Hr as [Hr|Hr]; [left; exact Hr|].
+  right. rewrite <- (firstn_skipn p (recs S)). apply in_or_app. right. exact Hr.
+Qed.
+
+(* every record of the backup after a run was in the backup before or is a source record *)
+Theorem backup_run_subset : forall S B r,
+  In r (recs (backup_run S B)) -> In r (recs B) \/ In r (recs S).
+Proof.
+  intros S B r. unfold backup_run.
+  set (bk1 := if rev B <? rev S then {| recs := compact (recs B); rev := rev S |} else B).
+  assert (H1 : forall x, In x (recs bk1) -> In x (recs B)).
+  { unfold bk1. destruct (rev B <? rev S); cbn [recs]; [|auto]. intros x Hx. apply compact_in in Hx. tauto. }
+  destruct (dat_size S <? dat_size bk1); intros Hr; apply incremental_subset in Hr.
+  - destruct Hr as [[]|Hr]. right. exact Hr.
+  - destruct Hr as [Hr|Hr]; [left; apply H1; exact Hr | right; exact Hr].
 Qed.
 
 Lemma backup_run_converges : forall S B P A c,
@@ -353,10 +465,8 @@ Lemma backup_run_converges : forall S B P A c,
   (forall r, In r (recs S) -> 0 < r_ts r) ->
   (forall r, In r A -> c < r_ts r) ->
   (forall r, In r (recs B) -> r_ts r <= c) ->
-  (forall k, live_lookup (recs B) k = live_lookup P k) ->
-  let B' := backup_run S B in
-  (forall k, live_lookup (recs B') k = live_lookup (recs S) k) /\
-  (forall r, In r (recs B') -> In r (recs B) \/ In r (recs S)).
+  (forall k, latest A k = None -> live_lookup (recs B) k = live_lookup P k) ->
+  forall k, live_lookup (recs (backup_run S B)) k = live_lookup (recs S) k.
 Proof.
   intros S B P A c HS Hpos HA HB Hll. unfold backup_run.
   set (bk1 := if rev B <? rev S then {| recs := compact (recs B); rev := rev S |} else B).
@@ -368,129 +478,268 @@ Proof.
   destruct H1 as [H1a H1b].
   destruct (dat_size S <? dat_size bk1).
   - (* destroyed and recreated: a full copy *)
-    destruct (incremental_converges S empty_vol [] (recs S) 0 eq_refl Hpos
-                (fun r (Hr : In r []) => match Hr with end) (fun k => eq_refl)) as [Ha Hb].
-    split; [exact Ha|]. intros r Hr. destruct (Hb r Hr) as [[]|Hr']. right. exact Hr'.
-  - destruct (incremental_converges S bk1 P A c HS HA (fun r Hr => HB r (H1a r Hr))
-                (fun k => eq_trans (H1b k) (Hll k))) as [Ha Hb].
-    split; [exact Ha|]. intros r Hr. destruct (Hb r Hr) as [Hr'|Hr']; [left; apply H1a; exact Hr' | right; exact Hr'].
+    apply (incremental_converges S empty_vol [] (recs S) 0 eq_refl Hpos).
+    + intros r [].
+    + intros k Hk. cbn [empty_vol recs]. unfold live_lookup. cbn [latest]. reflexivity.
+  - apply (incremental_converges S bk1 P A c HS HA (fun r Hr => HB r (H1a r Hr))).
+    intros k Hk. rewrite H1b. apply Hll. exact Hk.
 Qed.
 
 (* ---------- histories ---------- *)
 
-(* the source is P ++ A: P is what the backup reflects (timestamps <= c), A are the
-   records appended since the last pull (timestamps > c); a compaction happens only
-   when A is empty *)
+(* the source is P ++ A: every record of A is newer than everything the backup holds,
+   the backup serves every key A does not touch as P does; [dirty = false]: A is empty *)
 Definition Inv (st : state) (dirty : bool) : Prop :=
-  exists P A c,
+  exists P A,
     recs (src st) = P ++ A /\
-    (forall r, In r (recs (src st)) -> 0 < r_ts r <= clock st) /\
-    (forall r, In r P -> r_ts r <= c) /\
-    (forall r, In r A -> c < r_ts r) /\
-    c <= clock st /\
-    (forall r, In r (recs (bk st)) -> r_ts r <= c) /\
-    (forall k, live_lookup (recs (bk st)) k = live_lookup P k) /\
+    (forall r, In r (recs (src st)) -> 0 < r_ts r) /\
+    (forall r, In r A -> maxts (recs (bk st)) < r_ts r) /\
+    (forall k, latest A k = None -> live_lookup (recs (bk st)) k = live_lookup P k) /\
     (dirty = false -> A = []).
 
 Lemma inv_init : Inv init false.
 Proof.
-  exists [], [], 0. cbn. repeat split; try (intros r []); try lia; auto.
-Qed.
-
-Lemma inv_append : forall st d r,
-  Inv st d -> r_ts r = clock st + 1 ->
-  Inv {| src := {| recs := recs (src st) ++ [r]; rev := rev (src st) |}; clock := clock st + 1; bk := bk st |} true.
-Proof.
-  intros st d r [P [A [c [HS [Hts [HP [HA [Hc [HB [Hll _]]]]]]]]]] Hr.
-  exists P, (A ++ [r]), c. cbn [src recs clock bk].
-  split; [rewrite HS, app_assoc; reflexivity|].
-  split. { intros x Hx. apply in_app_or in Hx. destruct Hx as [Hx|[Hx|[]]]; [specialize (Hts x Hx); lia | subst x; lia]. }
-  split; [exact HP|].
-  split. { intros x Hx. apply in_app_or in Hx. destruct Hx as [Hx|[Hx|[]]]; [apply HA; exact Hx | subst x; lia]. }
-  split; [lia|]. split; [exact HB|]. split; [exact Hll | discriminate].
+  exists [], []. cbn. repeat split; try (intros r []); auto.
 Qed.
 
 Lemma inv_weaken : forall st d, Inv st d -> Inv st true.
 Proof.
-  intros st d [P [A [c H]]]. exists P, A, c. intuition discriminate.
+  intros st d [P [A H]]. exists P, A. intuition discriminate.
 Qed.
 
-Lemma inv_step : forall st d o,
-  Inv st d ->
-  match o with Compact => d = false | _ => True end ->
-  Inv (step st o) (match o with Write _ _ _ | Delete _ => true | Compact => d | Backup => false end).
+Lemma st_eta : forall st, {| src := src st; bk := bk st |} = st.
+Proof. intros [s b]. reflexivity. Qed.
+
+Lemma inv_append : forall st d r,
+  Inv st d -> maxts (recs (bk st)) < r_ts r ->
+  Inv {| src := {| recs := recs (src st) ++ [r]; rev := rev (src st) |}; bk := bk st |} true.
 Proof.
-  intros st d o HI Hd. destruct o as [k val len | k | | ]; cbn [step].
-  - unfold src_write.
+  intros st d r [P [A [HS [Hpos [HA [Hll _]]]]]] Hr.
+  exists P, (A ++ [r]). cbn [src recs bk].
+  split; [rewrite HS, app_assoc; reflexivity|].
+  split. { intros x Hx. apply in_app_or in Hx. destruct Hx as [Hx|[Hx|[]]]; [apply Hpos; exact Hx | subst x; lia]. }
+  split. { intros x Hx. apply in_app_or in Hx. destruct Hx as [Hx|[Hx|[]]]; [apply HA; exact Hx | subst x; exact Hr]. }
+  split; [|discriminate].
+  intros k Hk. apply Hll. rewrite latest_app in Hk. destruct (latest [r] k); [discriminate | exact Hk].
+Qed.
+
+Lemma inv_of_reflects : forall st,
+  reflects st = true -> (forall r, In r (recs (src st)) -> 0 < r_ts r) -> Inv st true.
+Proof.
+  intros st H Hpos. destruct (reflects_sound st H) as [P [A [HS [HA Hll]]]].
+  exists P, A. repeat split; auto. discriminate.
+Qed.
+
+Lemma inv_backup : forall st d, Inv st d -> Inv (step st Backup) false.
+Proof.
+  intros st d [P [A [HS [Hpos [HA [Hll _]]]]]].
+  pose proof (backup_run_converges (src st) (bk st) P A (maxts (recs (bk st))) HS Hpos HA
+                (fun r Hr => in_maxts _ _ Hr) Hll) as Ha.
+  exists (recs (src st)), []. cbn [step src recs bk].
+  split; [rewrite app_nil_r; reflexivity|]. split; [exact Hpos|].
+  split; [intros r []|]. split; [intros k _; apply Ha | reflexivity].
+Qed.
+
+Lemma inv_compact_clean : forall st, Inv st false -> Inv (step st Compact) false.
+Proof.
+  intros st [P [A [HS [Hpos [HA [Hll HA0]]]]]].
+  specialize (HA0 eq_refl). subst A. rewrite app_nil_r in HS.
+  exists (compact P), []. cbn [step src recs bk compact_vol].
+  split; [rewrite HS, app_nil_r; reflexivity|].
+  split. { intros r Hr. apply compact_in in Hr. apply Hpos. tauto. }
+  split; [intros r []|]. split; [|reflexivity].
+  intros k _. rewrite live_lookup_compact. apply Hll. reflexivity.
+Qed.
+
+Lemma appended_app : forall st r,
+  appended st {| src := {| recs := recs (src st) ++ [r]; rev := rev (src st) |}; bk := bk st |} = true.
+Proof.
+  intros st r. unfold appended. cbn [src recs]. rewrite app_length. cbn [length].
+  apply negb_true_iff. apply Nat.eqb_neq. lia.
+Qed.
+
+Lemma inv_append_or : forall st r,
+  Inv st true -> 0 < r_ts r ->
+  let st' := {| src := {| recs := recs (src st) ++ [r]; rev := rev (src st) |}; bk := bk st |} in
+  (r_ts r <=? maxts (recs (bk st))) && negb (reflects st') = false ->
+  Inv st' true.
+Proof.
+  intros st r HI Hpos st' Hc. apply andb_false_iff in Hc. destruct Hc as [Hc|Hc].
+  - apply N.leb_gt in Hc. exact (inv_append st true r HI Hc).
+  - apply negb_false_iff in Hc. apply inv_of_reflects; [exact Hc|].
+    destruct HI as [P [A [_ [Hp _]]]]. unfold st'. cbn [src recs].
+    intros x Hx. apply in_app_or in Hx. destruct Hx as [Hx|[Hx|[]]]; [apply Hp; exact Hx | subst x; exact Hpos].
+Qed.
+
+(* a step that is not an instance of a finding keeps the invariant *)
+Lemma inv_step_trigger : forall st o,
+  Inv st true -> op_ts_pos o = true -> step_trigger st o = None -> Inv (step st o) true.
+Proof.
+  intros st o HI Hpos Ht. destruct o as [k val len meta ts | k ts | | ]; unfold step_trigger in Ht; cbn [step] in *.
+  - unfold src_write in *.
     destruct (match live_lookup (recs (src st)) k with
               | Some r => (r_val r =? val) && (r_len r =? len) | None => false end).
-    + destruct st as [s0 c0 b0]; cbn [src clock bk]. exact (inv_weaken _ _ HI).
-    + eapply inv_append; [exact HI | reflexivity].
-  - unfold src_delete. destruct (live_lookup (recs (src st)) k).
-    + eapply inv_append; [exact HI | reflexivity].
-    + destruct st as [s0 c0 b0]; cbn [src clock bk]. exact (inv_weaken _ _ HI).
-  - subst d. destruct HI as [P [A [c [HS [Hts [HP [HA [Hc [HB [Hll HA0]]]]]]]]]].
-    specialize (HA0 eq_refl). subst A. rewrite app_nil_r in HS.
-    exists (compact P), [], c. cbn [src recs clock bk compact_vol].
-    split; [rewrite HS, app_nil_r; reflexivity|].
-    split. { intros r Hr. apply compact_in in Hr. apply Hts. tauto. }
-    split. { intros r Hr. apply compact_in in Hr. apply HP. tauto. }
-    split; [intros r []|]. split; [exact Hc|]. split; [exact HB|].
-    split; [|reflexivity]. intros k. rewrite live_lookup_compact. apply Hll.
-  - destruct HI as [P [A [c [HS [Hts [HP [HA [Hc [HB [Hll _]]]]]]]]]].
-    destruct (backup_run_converges (src st) (bk st) P A c HS (fun r Hr => proj1 (Hts r Hr)) HA HB Hll) as [Ha Hb].
-    exists (recs (src st)), [], (clock st). cbn [src recs clock bk].
-    split; [rewrite app_nil_r; reflexivity|].
-    split; [exact Hts|].
-    split; [intros r Hr; apply Hts; exact Hr|].
-    split; [intros r []|]. split; [lia|].
-    split. { intros r Hr. destruct (Hb r Hr) as [Hr'|Hr']; [specialize (HB r Hr'); lia | apply Hts; exact Hr']. }
-    split; [exact Ha | reflexivity].
+    + rewrite st_eta. exact HI.
+    + rewrite appended_app in Ht. cbn [andb] in Ht.
+      apply inv_append_or; [exact HI | cbn [r_ts]; apply N.ltb_lt; exact Hpos |].
+      cbn [r_ts]. destruct (_ && _); [discriminate | reflexivity].
+  - unfold src_delete in *. destruct (live_lookup (recs (src st)) k).
+    + rewrite appended_app in Ht. cbn [andb] in Ht.
+      apply inv_append_or; [exact HI | cbn [r_ts]; apply N.ltb_lt; exact Hpos |].
+      cbn [r_ts]. destruct (_ && _); [discriminate | reflexivity].
+    + rewrite st_eta. exact HI.
+  - destruct (reflects {| src := compact_vol (src st); bk := bk st |}) eqn:E; [|discriminate].
+    apply inv_of_reflects; [exact E|]. cbn [src compact_vol recs].
+    destruct HI as [P [A [_ [Hp _]]]]. intros r Hr. apply compact_in in Hr. apply Hp. tauto.
+  - exact (inv_weaken _ _ (inv_backup st true HI)).
 Qed.
 
-Lemma inv_exec : forall h st d, Inv st d -> pulled_from d h = true -> exists d', Inv (exec st h) d'.
+Lemma inv_exec_trigger : forall h st,
+  Inv st true -> ts_positive h = true -> trigger_from st h = None -> Inv (exec st h) true.
 Proof.
-  induction h as [|o h IH]; intros st d HI Hp; [exists d; exact HI|].
+  induction h as [|o h IH]; intros st HI Hp Ht; [exact HI|].
   unfold exec. cbn [fold_left]. fold (exec (step st o) h).
-  destruct o as [k val len | k | | ]; cbn [pulled_from] in Hp.
-  - eapply IH; [exact (inv_step st d (Write k val len) HI I) | exact Hp].
-  - eapply IH; [exact (inv_step st d (Delete k) HI I) | exact Hp].
-  - apply andb_true_iff in Hp. destruct Hp as [Hd Hp]. apply negb_true_iff in Hd.
-    eapply IH; [exact (inv_step st d Compact HI Hd) | exact Hp].
-  - eapply IH; [exact (inv_step st d Backup HI I) | exact Hp].
+  cbn [ts_positive forallb] in Hp. apply andb_true_iff in Hp. destruct Hp as [Hp1 Hp2].
+  cbn [trigger_from] in Ht. destruct (step_trigger st o) eqn:E; [discriminate|].
+  apply IH; [exact (inv_step_trigger st o HI Hp1 E) | exact Hp2 | exact Ht].
 Qed.
 
 Lemma exec_app : forall st h1 h2, exec st (h1 ++ h2) = exec (exec st h1) h2.
 Proof. intros. unfold exec. apply fold_left_app. Qed.
 
-(* convergence, under the hypothesis that the backup pulled before each source compaction *)
-Theorem converges_if_pulled : forall h,
-  pulled_before_each_compaction h = true ->
-  forall k, read (bk (exec init (h ++ [Backup]))) k = read (src (exec init (h ++ [Backup]))) k.
+Lemma converges_of_inv : forall st d,
+  Inv st d -> forall k, read (bk (step st Backup)) k = read (src (step st Backup)) k.
 Proof.
-  intros h Hp. destruct (inv_exec h init false inv_init Hp) as [d HI].
-  rewrite exec_app. set (st := exec init h) in *.
-  pose proof (inv_step st d Backup HI I) as [P [A [c [HS [_ [_ [_ [_ [_ [Hll HA0]]]]]]]]]].
+  intros st d HI. pose proof (inv_backup st d HI) as [P [A [HS [_ [_ [Hll HA0]]]]]].
   specialize (HA0 eq_refl). subst A. rewrite app_nil_r in HS.
-  change (exec st [Backup]) with (step st Backup).
-  apply read_of_lookup. intros k. rewrite Hll, HS. reflexivity.
+  apply read_of_lookup. intros k. rewrite HS. apply Hll. reflexivity.
 Qed.
 
-(* the full statement fails: a write that reaches the source between the last pull
-   and a source compaction is never copied *)
-Definition witness_history : list op := [Write 3 1 8; Backup; Write 1 2 8; Compact].
+(* convergence for every history none of whose steps is an instance of finding 0 or 1 *)
+Theorem converges_if_no_trigger : forall h,
+  ts_positive h = true -> trigger h = None ->
+  forall k, read (bk (exec init (h ++ [Backup]))) k = read (src (exec init (h ++ [Backup]))) k.
+Proof.
+  intros h Hp Ht. rewrite exec_app. change (exec (exec init h) [Backup]) with (step (exec init h) Backup).
+  apply (converges_of_inv _ true). apply inv_exec_trigger; [exact (inv_weaken _ _ inv_init) | exact Hp | exact Ht].
+Qed.
+
+(* ... and at every backup run inside such a history, not only the last *)
+Theorem converges_at_every_run : forall h1 h2,
+  ts_positive (h1 ++ Backup :: h2) = true -> trigger (h1 ++ Backup :: h2) = None ->
+  forall k, read (bk (exec init (h1 ++ [Backup]))) k = read (src (exec init (h1 ++ [Backup]))) k.
+Proof.
+  intros h1 h2 Hp Ht. apply converges_if_no_trigger.
+  - unfold ts_positive in *. rewrite forallb_app in Hp. apply andb_true_iff in Hp. tauto.
+  - clear Hp. unfold trigger in *. revert Ht. generalize init. induction h1 as [|o h1 IH]; intros st Ht; [reflexivity|].
+    cbn [app trigger_from] in *. destruct (step_trigger st o); [discriminate | apply IH; exact Ht].
+Qed.
+
+(* the coarser history-level condition: strictly increasing clock readings and a
+   backup run before every source compaction *)
+Definition Inv2 (st : state) (d : bool) (c : N) : Prop :=
+  Inv st d /\ (forall r, In r (recs (src st)) -> r_ts r <= c) /\ (forall r, In r (recs (bk st)) -> r_ts r <= c).
+
+Lemma inv2_mono : forall st d c c', Inv2 st d c -> c <= c' -> Inv2 st true c'.
+Proof.
+  intros st d c c' [HI [H1 H2]] Hc. split; [exact (inv_weaken _ _ HI)|].
+  split; intros r Hr; [specialize (H1 r Hr) | specialize (H2 r Hr)]; lia.
+Qed.
+
+Lemma inv2_append : forall st d c r,
+  Inv2 st d c -> c < r_ts r ->
+  Inv2 {| src := {| recs := recs (src st) ++ [r]; rev := rev (src st) |}; bk := bk st |} true (r_ts r).
+Proof.
+  intros st d c r [HI [H1 H2]] Hc. split.
+  - apply (inv_append st d r HI). pose proof (maxts_le _ _ H2). lia.
+  - cbn [src recs bk]. split.
+    + intros x Hx. apply in_app_or in Hx. destruct Hx as [Hx|[Hx|[]]]; [specialize (H1 x Hx); lia | subst x; lia].
+    + intros x Hx. specialize (H2 x Hx). lia.
+Qed.
+
+Lemma inv2_exec : forall h st d c,
+  Inv2 st d c -> ts_increasing_from c h = true -> pulled_from d h = true ->
+  exists d' c', Inv2 (exec st h) d' c'.
+Proof.
+  induction h as [|o h IH]; intros st d c HI Hts Hp; [exists d, c; exact HI|].
+  unfold exec. cbn [fold_left]. fold (exec (step st o) h).
+  destruct o as [k val len meta ts | k ts | | ]; cbn [pulled_from ts_increasing_from] in Hp, Hts.
+  - apply andb_true_iff in Hts. destruct Hts as [Hc Hts]. apply N.ltb_lt in Hc.
+    apply (IH _ true ts); [|exact Hts|exact Hp]. cbn [step]. unfold src_write.
+    destruct (match live_lookup (recs (src st)) k with
+              | Some r => (r_val r =? val) && (r_len r =? len) | None => false end).
+    + rewrite st_eta. apply (inv2_mono st d c ts HI). lia.
+    + exact (inv2_append st d c {| r_key := k; r_ts := ts; r_live := true; r_val := val; r_len := len; r_meta := meta |} HI Hc).
+  - apply andb_true_iff in Hts. destruct Hts as [Hc Hts]. apply N.ltb_lt in Hc.
+    apply (IH _ true ts); [|exact Hts|exact Hp]. cbn [step]. unfold src_delete.
+    destruct (live_lookup (recs (src st)) k).
+    + exact (inv2_append st d c {| r_key := k; r_ts := ts; r_live := false; r_val := 0; r_len := 0; r_meta := 0 |} HI Hc).
+    + rewrite st_eta. apply (inv2_mono st d c ts HI). lia.
+  - apply andb_true_iff in Hp. destruct Hp as [Hd Hp]. apply negb_true_iff in Hd. subst d.
+    apply (IH _ false c); [|exact Hts|exact Hp]. destruct HI as [HI [H1 H2]].
+    split; [exact (inv_compact_clean st HI)|]. cbn [step src bk compact_vol recs].
+    split; [|exact H2]. intros r Hr. apply compact_in in Hr. apply H1. tauto.
+  - apply (IH _ false c); [|exact Hts|exact Hp]. destruct HI as [HI [H1 H2]].
+    split; [exact (inv_backup st d HI)|]. cbn [step src bk]. split; [exact H1|].
+    intros r Hr. apply backup_run_subset in Hr. destruct Hr as [Hr|Hr]; [apply H2 | apply H1]; exact Hr.
+Qed.
+
+Theorem converges_if_pulled : forall h,
+  ts_increasing h = true -> pulled_before_each_compaction h = true ->
+  forall k, read (bk (exec init (h ++ [Backup]))) k = read (src (exec init (h ++ [Backup]))) k.
+Proof.
+  intros h Hts Hp. rewrite exec_app. change (exec (exec init h) [Backup]) with (step (exec init h) Backup).
+  assert (H0 : Inv2 init false 0) by (split; [exact inv_init | split; intros r []]).
+  destruct (inv2_exec h init false 0 H0 Hts Hp) as [d [c [HI _]]].
+  exact (converges_of_inv _ d HI).
+Qed.
+
+(* ---------- the full statement fails ---------- *)
+
+(* finding 0: a write that reaches the source between the last pull and a source
+   compaction is moved into the key-ordered region and never copied *)
+Definition witness_history : list op := [Write 3 1 8 0 10; Backup; Write 1 2 8 19 20; Compact].
 
 Theorem converges_refuted : exists h k,
-  hist_ok h = true /\
+  hist_ok h = true /\ ts_increasing h = true /\ trigger h = Some 0 /\
   read (bk (exec init (h ++ [Backup]))) k <> read (src (exec init (h ++ [Backup]))) k.
-Proof. exists witness_history, 1. split; [reflexivity | vm_compute; discriminate]. Qed.
+Proof. exists witness_history, 1. repeat split; try reflexivity. vm_compute; discriminate. Qed.
+
+(* finding 0, second form: an unpulled delete whose tombstone the compaction drops keeps
+   being served by the backup (same .dat sizes: no destroy-and-full-copy) *)
+Definition witness_delete : list op :=
+  [Write 1 1 8 0 10; Write 2 1 8 0 20; Backup; Delete 1 30; Write 3 2 8 19 40; Compact].
+
+Theorem delete_resurrected : 
+  hist_ok witness_delete = true /\ ts_increasing witness_delete = true /\ trigger witness_delete = Some 0 /\
+  read (bk (exec init (witness_delete ++ [Backup]))) 1 = Some (1, 8) /\
+  read (src (exec init (witness_delete ++ [Backup]))) 1 = None.
+Proof. repeat split; vm_compute; reflexivity. Qed.
+
+(* finding 1: no compaction at all; the clock reads the same nanosecond twice, or steps back *)
+Definition witness_equal_ts : list op := [Write 1 1 8 0 10; Backup; Write 2 2 8 19 10].
+Definition witness_clock_step : list op := [Write 1 1 8 0 20; Backup; Write 2 2 8 19 15].
+
+Theorem equal_ts_refuted :
+  hist_ok witness_equal_ts = true /\ pulled_before_each_compaction witness_equal_ts = true /\
+  trigger witness_equal_ts = Some 1 /\
+  read (bk (exec init (witness_equal_ts ++ [Backup]))) 2 = None /\
+  read (src (exec init (witness_equal_ts ++ [Backup]))) 2 = Some (2, 8).
+Proof. repeat split; vm_compute; reflexivity. Qed.
+
+Theorem clock_step_refuted :
+  hist_ok witness_clock_step = true /\ pulled_before_each_compaction witness_clock_step = true /\
+  trigger witness_clock_step = Some 1 /\
+  read (bk (exec init (witness_clock_step ++ [Backup]))) 2 = None /\
+  read (src (exec init (witness_clock_step ++ [Backup]))) 2 = Some (2, 8).
+Proof. repeat split; vm_compute; reflexivity. Qed.
 
 Lemma exec_repeat_backup_fix : forall st n,
   backup_run (src st) (bk st) = bk st -> exec st (repeat Backup n) = st.
 Proof.
   intros st n H. induction n as [|n IH]; [reflexivity|].
   cbn [repeat]. unfold exec. cbn [fold_left]. fold (exec (step st Backup) (repeat Backup n)).
-  assert (Hs : step st Backup = st) by (destruct st as [s0 c0 b0]; cbn [step src bk clock] in *; rewrite H; reflexivity).
+  assert (Hs : step st Backup = st) by (destruct st as [s0 b0]; cbn [step src bk] in *; rewrite H; reflexivity).
   rewrite Hs. exact IH.
 Qed.
 
@@ -503,3 +752,51 @@ Proof.
   change (Backup :: repeat Backup n) with ([Backup] ++ repeat Backup n). rewrite exec_app.
   rewrite exec_repeat_backup_fix; [split; vm_compute; reflexivity | vm_compute; reflexivity].
 Qed.
+
+Theorem never_recovers_equal_ts : forall n,
+  read (bk (exec init (witness_equal_ts ++ Backup :: repeat Backup n))) 2 = None /\
+  read (src (exec init (witness_equal_ts ++ Backup :: repeat Backup n))) 2 = Some (2, 8).
+Proof.
+  intros n. rewrite exec_app.
+  change (Backup :: repeat Backup n) with ([Backup] ++ repeat Backup n). rewrite exec_app.
+  rewrite exec_repeat_backup_fix; [split; vm_compute; reflexivity | vm_compute; reflexivity].
+Qed.
+
+(* ---------- non-vacuity ---------- *)
+Definition example_history : list op :=
+  [Write 2 1 8 0 1; Write 1 1 300 0 2; Backup; Write 1 2 17 19 3; Delete 2 4; Write 3 0 3 0 5; Backup; Compact;
+   Write 2 3 40 23 6; Backup; Backup; Compact; Compact; Write 1 0 1 0 7].
+
+Lemma example_ok :
+  trigger example_history = None /\ hist_ok example_history = true /\
+  ts_increasing example_history = true /\ pulled_before_each_compaction example_history = true /\
+  map (read (bk (exec init (example_history ++ [Backup])))) [1; 2; 3; 4] = [Some (0, 1); Some (3, 40); Some (0, 3); None] /\
+  map (read (src (exec init (example_history ++ [Backup])))) [1; 2; 3; 4] = [Some (0, 1); Some (3, 40); Some (0, 3); None].
+Proof. vm_compute. repeat split. Qed.
+
+Definition example_harmless : list op :=
+  [Write 5 1 8 0 15; Write 3 1 8 0 18; Write 2 1 8 0 20; Backup; Write 1 1 8 0 60; Backup;
+   Write 7 1 8 0 70; Write 7 2 8 19 65; Compact].
+
+Lemma example_harmless_ok :
+  trigger example_harmless = None /\ hist_ok example_harmless = true /\
+  pulled_before_each_compaction example_harmless = false /\ ts_increasing example_harmless = false /\
+  (length (recs (bk (exec init (example_harmless ++ [Backup])))) > length (recs (src (exec init (example_harmless ++ [Backup])))))%nat /\
+  map (read (bk (exec init (example_harmless ++ [Backup])))) [1; 2; 3; 5; 7] =
+  map (read (src (exec init (example_harmless ++ [Backup])))) [1; 2; 3; 5; 7] /\
+  map (read (src (exec init (example_harmless ++ [Backup])))) [1; 2; 3; 5; 7] =
+  [Some (1, 8); Some (1, 8); Some (1, 8); Some (1, 8); Some (2, 8)].
+Proof. vm_compute. repeat split; lia. Qed.
+
+Definition example_destroy : list op := example_harmless ++ [Backup].
+
+Lemma example_destroy_ok :
+  trigger example_destroy = None /\ hist_ok example_destroy = true /\
+  (let st := exec init example_destroy in
+   rev (bk st) <? rev (src st) = false /\ dat_size (src st) <? dat_size (bk st) = true /\
+   length (recs (bk st)) = 9%nat /\ length (recs (bk (step st Backup))) = 5%nat) /\
+  map (read (bk (exec init (example_destroy ++ [Backup])))) [1; 2; 3; 5; 7] =
+  [Some (1, 8); Some (1, 8); Some (1, 8); Some (1, 8); Some (2, 8)] /\
+  map (read (src (exec init (example_destroy ++ [Backup])))) [1; 2; 3; 5; 7] =
+  [Some (1, 8); Some (1, 8); Some (1, 8); Some (1, 8); Some (2, 8)].
+Proof. vm_compute. repeat split. Qed.
